@@ -81,7 +81,8 @@ class _Canonical(ast.NodeTransformer):
     (i) `while True:` whose first statement is the guard `if c: raise ... / return X` (no `break` of that loop, no `else`)
         -> `while not c: REST` followed by the raise / return;
     (j) `cast(T, e)` -> `e` (typing.cast is the identity at run time);
-    (k) `obj.a = X if c else Y` with a call in an arm -> `if c: obj.a = X  else: obj.a = Y`."""
+    (k) `obj.a = X if c else Y` with a call in an arm -> `if c: obj.a = X  else: obj.a = Y`;
+    (l) `if a: if b: X` -> `if a and b: X`."""
 
     _OPS = (ast.Add, ast.Sub, ast.Mult, ast.BitOr, ast.BitAnd, ast.FloorDiv)
 
@@ -215,6 +216,13 @@ class _Canonical(ast.NodeTransformer):
     def visit_If(self, n: ast.If) -> Any:
         self.generic_visit(n)
         n.test = self._nnf(n.test, True)
+        # (l) `if a: if b: X` (nothing else in the outer body, no `else` on either) -> `if a and b: X`
+        while not n.orelse and len(n.body) == 1 and isinstance(n.body[0], ast.If) and not n.body[0].orelse:
+            inner = n.body[0]
+            vals = (n.test.values if isinstance(n.test, ast.BoolOp) and isinstance(n.test.op, ast.And) else [n.test]) + (inner.test.values if isinstance(inner.test, ast.BoolOp) and isinstance(inner.test.op, ast.And) else [inner.test])
+            n.test = ast.copy_location(ast.BoolOp(op=ast.And(), values=vals), n.test)
+            n.body = inner.body
+            self.rewrites += 1
         if n.orelse and isinstance(n.body[-1], (ast.Return, ast.Raise, ast.Continue, ast.Break)):
             # (g) `if c: ...; return  else: REST` -> `if c: ...; return` followed by REST
             self.rewrites += 1
